@@ -60,6 +60,12 @@ impl FrameFut {
     { unimplemented!() }
 }
 impl ReceivedFrame {
+    /// contract of the real pointer code: Kani wkc::rx_first_pdu (view = the first datagram's data area, counter = the two bytes
+    /// behind it; command code and index must be the ones of the handle)
+    #[verifier::external_body]
+    pub fn first_pdu(self, handle: PduResponseHandle) -> (r: Result<ReceivedPdu, Error>)
+        ensures r is Ok ==> self.pdus@.len() >= 1 && (r->Ok_0).data() == self.pdus@[0].data && (r->Ok_0).wkc_v() == self.pdus@[0].wkc
+    { unimplemented!() }
     #[verifier::external_body]
     pub fn into_pdu_iter(self) -> (r: ReceivedPduIter)
         ensures r.rest@ == self.pdus@
